@@ -52,8 +52,8 @@ class P(Prop):
             "without an input time-series message; the serialised message is parsed back and compared in Coq with the model's export of "
             "the result; the oracle compares every detail record and series with the result and the components. "
             "Non-trivial = a plant with >= 2 fuel consumers")
-    QUICK_N = 80
-    THOROUGH_N = 2000
+    QUICK_N = 160
+    THOROUGH_N = 2500
     SHARD = 20
 
     def regen(self):
@@ -83,7 +83,7 @@ class P(Prop):
     def gen(self, rng, tier, override=None):
         out = []
         for _ in range(self.n_cases(tier, override)):
-            mech = rng.random() < 0.3
+            mech = rng.random() < 0.4
             c = sysrun.gen_electric_case(rng, n=rng.choice([1, 2, 3, 4, 5, 6, 6, 7, 12, 14]), max_swb=2)
             comps = c["plant"]["comps"]
             # two gensets with the same name on different switchboards, loaded differently
@@ -118,6 +118,14 @@ class P(Prop):
                         c["mech"]["plant"]["lines"] = sorted({d["line"] for d in c["mech"]["plant"]["mech"]})
                         m["name"] = g["name"]
                         c["same_name_across_subsystems"] = True
+            # hybrid plant: the PTI/PTOs of the switchboards sit on the shaft lines as well
+            c["hybrid"] = False
+            ptis = [d for d in comps if d["cls"] == "ptipto"]
+            if c["mech"] and ptis and rng.random() < 0.7:
+                lines = c["mech"]["plant"]["lines"]
+                for k, d in enumerate(ptis):
+                    d["line"] = lines[k % len(lines)]
+                c["hybrid"] = True
             c["series"] = rng.random() < 0.6
             c["scalar_dt"] = rng.random() < 0.3 and c["inp"]["n"] >= 2
             if c["scalar_dt"]:
@@ -149,7 +157,26 @@ class P(Prop):
                 esys.do_power_balance_calculation()
                 eres = esys.get_fuel_energy_consumption_running_time(fuel_specified_by=spec)
                 system, result, mres, mobjs = esys, eres, None, []
-                if case["mech"]:
+                if case["mech"] and case.get("hybrid"):
+                    from feems.system_model import HybridPropulsionSystem
+                    mplant = case["mech"]["plant"]
+                    mobjs = [pg.build_mechanical_component(d) for d in mplant["mech"]]
+                    ptis = [o for d, o in zip(plant["comps"], eobjs) if d["cls"] == "ptipto"]
+                    msys = MechanicalPropulsionSystem("mech", mobjs + ptis)
+                    system = HybridPropulsionSystem("hyb", esys, msys)
+                    pg.apply_mechanical_inputs(msys, mobjs, mplant, case["mech"]["inp"])
+                    for o in ptis:
+                        o.full_pti_mode = np.zeros(n, dtype=bool)
+                    if case["scalar_dt"]:
+                        tis, meth = float(inp["dt"][0]), IntegrationMethod.trapezoid
+                    else:
+                        tis, meth = np.array([float(x) for x in inp["dt"]]), IntegrationMethod.sum_with_time
+                    msys.set_time_interval(tis, meth)
+                    system.do_power_balance_calculation()
+                    result = system.get_fuel_energy_consumption_running_time(time_interval_s=tis, integration_method=meth, fuel_specified_by=spec)
+                    eres, mres = result.electric_system, result.mechanical_system
+                    mobjs = mobjs + ptis
+                elif case["mech"]:
                     msys, mobjs = pg.build_mechanical_system(case["mech"]["plant"])
                     pg.apply_mechanical_inputs(msys, mobjs, case["mech"]["plant"], case["mech"]["inp"])
                     if case["scalar_dt"]:
@@ -182,7 +209,9 @@ class P(Prop):
         comp = {}
         for d, o in zip(plant["comps"], eobjs):
             comp[(o.name, int(o.switchboard_id), 0)] = [float(x) for x in np.atleast_1d(o.power_output)]
-        for d, o in zip((case["mech"] or {"plant": {"mech": []}})["plant"]["mech"], mobjs):
+        for o in mobjs:
+            if type(o).__name__ == "PTIPTO":
+                continue      # the series of a PTI/PTO travel with its electric-side record; the property asks for the main engines' here
             comp[(o.name, int(o.shaft_line_id), 1)] = [float(x) for x in np.atleast_1d(o.power_output)]
         out["component_power"] = [[k[0], k[1], v, k[2]] for k, v in comp.items()]
         return out
@@ -254,7 +283,7 @@ class P(Prop):
         return sum(1 for d in case["plant"]["comps"] if d["cls"] in ("genset", "genset_df", "genset_rect", "fuelcell", "coges")) >= 2
 
     def tags(self, case, obs):
-        t = ["plant=" + ("mechanical+electric" if case["mech"] else "electric"), "series" if case["series"] else "no-series",
+        t = ["plant=" + ("hybrid" if case.get("hybrid") else "mechanical+electric" if case["mech"] else "electric"), "series" if case["series"] else "no-series",
              "time-base=" + ("input-message" if case["with_ts_message"] else "scalar-interval" if case["scalar_dt"] else "interval-array"),
              "spec=" + case["fuel_spec"]]
         if case.get("same_name"):
